@@ -47,6 +47,12 @@ def gen_case(rng, ctx):
         which = rng.choice(["markov", "markov_dataset", "uniform"])
         return {"which": which, "n": n, "m": m, "steps": steps, "complete": rng.random() < 0.5,
                 "stream_seed": rng.randrange(10 ** 9), "size_class": "narrow-int-limits"}
+    if rng.random() < 0.12:
+        # long incomplete walks on very few elements: the ranking keeps shrinking to one bucket / to nothing and growing
+        # again (removal of the last elements, re-insertion into an empty or one-bucket ranking)
+        return {"which": rng.choice(["markov", "markov", "markov_dataset"]), "n": rng.choice([2, 3, 3, 4, 4, 5]),
+                "m": rng.randint(3, 8), "steps": rng.choice([60, 100, 150, 300]), "complete": False,
+                "stream_seed": rng.randrange(10 ** 9), "size_class": "few-elements-long-incomplete-walk"}
     if steps == 1000 and rng.random() < 0.7:
         steps = rng.choice([20, 30, 100])
     return {"which": which, "n": n, "m": m, "steps": steps, "complete": rng.random() < 0.5,
